@@ -514,3 +514,302 @@ Proof.
   - apply Hz. eapply balign_in_range_sub; [|exact Hi].
     eapply bsub_trans; [apply bsub_bcast_r; exact Hyz | apply bsub_bcast_r; exact Hx_].
 Qed.
+
+(* ================================================================ Part 3: the exact kernels as operator graphs *)
+Local Open Scope Z_scope.
+
+(* scalar values of the three element kinds: integers (of any integer type), booleans, exact fractions (floats) *)
+Inductive sval := VZ (z : Z) | VB (b : bool) | VQ (q : frac).
+Inductive sk := SZ | SB | SQ.
+Definition sden (k : sk) : Type := match k with SZ => Z | SB => bool | SQ => frac end.
+Definition inj (k : sk) : sden k -> sval := match k with SZ => VZ | SB => VB | SQ => VQ end.
+Definition prj (k : sk) : sval -> sden k :=
+  match k return sval -> sden k with
+  | SZ => fun v => match v with VZ z => z | _ => 0 end
+  | SB => fun v => match v with VB b => b | _ => false end
+  | SQ => fun v => match v with VQ q => q | _ => (0, 1) end
+  end.
+Definition lift1 a r (f : sden a -> sden r) : sval -> sval := fun x => inj r (f (prj a x)).
+Definition lift2 a b r (f : sden a -> sden b -> sden r) : sval -> sval -> sval := fun x y => inj r (f (prj a x) (prj b y)).
+Definition lift3 a b c r (f : sden a -> sden b -> sden c -> sden r) : sval -> sval -> sval -> sval :=
+  fun x y z => inj r (f (prj a x) (prj b y) (prj c z)).
+Definition sv0 : sval := VZ 0.
+
+(* ONNX operator occurrences as they appear in the exported graphs: the operator, its attributes that matter, and
+   the element type ONNX type inference assigns to it (the integer operators wrap in that type) *)
+Inductive oop :=
+  (* unary *)
+  | ONeg (sb : ity) | OAbs (sb : ity) | OSign (sb : ity) | OBitNot (sb : ity) | ONot
+  | OCast (t : ity) | OCastToBool | OCastOfBool (t : ity) | OCastFloat
+  | ORound | OFloor | OCeil | OAbsF | OSignF | OIdentity
+  (* binary *)
+  | OAdd (sb : ity) | OSub (sb : ity) | OMul (sb : ity) | ODiv (sb : ity) | OPow (sb : ity)
+  | OMax | OMin | OAnd | OOr | OXor
+  | OBitAnd (sb : ity) | OBitOr (sb : ity) | OBitXor (sb : ity) | OShl (sb : ity) | OShr (sb : ity)
+  | OEqual | OLess | OLessEq | OGreater | OGreaterEq | OEqualB
+  | OSubF | OEqualF | OAddF | OMulF
+  (* ternary *)
+  | OWhere | OWhereB.
+
+Definition sem1 (o : oop) : sval -> sval :=
+  match o with
+  | ONeg sb => lift1 SZ SZ (o_neg sb) | OAbs sb => lift1 SZ SZ (o_abs sb) | OSign sb => lift1 SZ SZ (o_sign sb)
+  | OBitNot sb => lift1 SZ SZ (o_bitnot sb) | ONot => lift1 SB SB o_not
+  | OCast t => lift1 SZ SZ (o_cast t) | OCastToBool => lift1 SZ SB o_cast_to_bool
+  | OCastOfBool t => lift1 SB SZ (o_cast_of_bool t) | OCastFloat => lift1 SZ SZ o_cast_float
+  | ORound => lift1 SQ SZ o_round | OFloor => lift1 SQ SZ o_floor | OCeil => lift1 SQ SZ o_ceil
+  | OAbsF => lift1 SQ SQ q_abs | OSignF => lift1 SQ SZ q_sign
+  | _ => fun x => x
+  end.
+Definition sem2 (o : oop) : sval -> sval -> sval :=
+  match o with
+  | OAdd sb => lift2 SZ SZ SZ (o_add sb) | OSub sb => lift2 SZ SZ SZ (o_sub sb) | OMul sb => lift2 SZ SZ SZ (o_mul sb)
+  | ODiv sb => lift2 SZ SZ SZ (o_div sb) | OPow sb => lift2 SZ SZ SZ (o_pow sb)
+  | OMax => lift2 SZ SZ SZ o_max | OMin => lift2 SZ SZ SZ o_min
+  | OAnd => lift2 SB SB SB o_and | OOr => lift2 SB SB SB o_or | OXor => lift2 SB SB SB o_xor
+  | OBitAnd sb => lift2 SZ SZ SZ (o_bitand sb) | OBitOr sb => lift2 SZ SZ SZ (o_bitor sb)
+  | OBitXor sb => lift2 SZ SZ SZ (o_bitxor sb) | OShl sb => lift2 SZ SZ SZ (o_shl sb) | OShr sb => lift2 SZ SZ SZ (o_shr sb)
+  | OEqual => lift2 SZ SZ SB o_equal | OLess => lift2 SZ SZ SB o_less | OLessEq => lift2 SZ SZ SB o_le
+  | OGreater => lift2 SZ SZ SB o_greater | OGreaterEq => lift2 SZ SZ SB o_ge | OEqualB => lift2 SB SB SB o_equal_b
+  | OSubF => lift2 SQ SZ SQ q_sub_z | OEqualF => lift2 SQ SQ SB q_eqb
+  | OAddF => lift2 SZ SZ SZ z_add | OMulF => lift2 SZ SZ SZ z_mul
+  | _ => fun x _ => x
+  end.
+Definition sem3 (o : oop) : sval -> sval -> sval -> sval :=
+  match o with
+  | OWhere => lift3 SB SZ SZ SZ o_where | OWhereB => lift3 SB SB SB SB o_where_b
+  | _ => fun x _ _ => x
+  end.
+
+Definition kx := kexpr sval oop oop oop.
+Definition kev_s : kx -> list sval -> sval := keval_s sem1 sem2 sem3 sv0.
+Definition kev_t : kx -> list (tensor sval) -> tensor sval := keval_t sem1 sem2 sem3 sv0.
+Definition v0 : kx := KVar 0.  Definition v1 : kx := KVar 1.  Definition v2 : kx := KVar 2.
+Definition kz (z : Z) : kx := KConst (VZ z).
+
+(* ---- the graphs (the Gallina image of what the plugins emit; tie S compares the REAL export with these) *)
+Definition ke_add sb : kx := KOp2 (OAdd sb) v0 v1.
+Definition ke_sub sb : kx := KOp2 (OSub sb) v0 v1.
+Definition ke_mul sb : kx := KOp2 (OMul sb) v0 v1.
+Definition ke_neg (sb : ity) : kx := if is_signed sb then KOp1 (ONeg sb) v0 else KOp2 (OSub sb) (kz 0) v0.
+Definition ke_abs sb : kx := KOp1 (OAbs sb) v0.
+Definition ke_sign sb : kx := KOp1 (OSign sb) v0.
+Definition ke_div sb : kx := KOp2 (ODiv sb) v0 v1.
+Definition ke_rem_of sb (x y : kx) : kx := KOp2 (OSub sb) x (KOp2 (OMul sb) (KOp2 (ODiv sb) x y) y).
+Definition ke_rem sb : kx := ke_rem_of sb v0 v1.
+Definition ke_floor_divide (sb : ity) : kx :=
+  if is_signed sb then
+    KOp3 OWhere (KOp2 OAnd (KOp1 ONot (KOp2 OEqual (KOp1 (OSign sb) v0) (KOp1 (OSign sb) v1)))
+                           (KOp1 ONot (KOp2 OEqual (ke_rem_of sb v0 v1) (kz 0))))
+         (KOp2 (OSub sb) (KOp2 (ODiv sb) v0 v1) (kz 1)) (KOp2 (ODiv sb) v0 v1)
+  else KOp2 (ODiv sb) v0 v1.
+Definition ke_guard : kx := KOp3 OWhere (KOp2 OEqual v1 (kz 0)) (kz 1) v1.
+Definition ke_mod sb : kx :=
+  let r := ke_rem_of sb v0 ke_guard in
+  KOp3 OWhere (KOp2 OAnd (KOp1 ONot (KOp2 OEqualB (KOp2 OLess r (kz 0)) (KOp2 OLess ke_guard (kz 0))))
+                         (KOp1 ONot (KOp2 OEqual r (kz 0))))
+       (KOp2 (OAdd sb) r ke_guard) r.
+Definition ke_fmod sb : kx := ke_rem_of sb v0 ke_guard.
+Definition ke_max : kx := KOp2 OMax v0 v1.
+Definition ke_min : kx := KOp2 OMin v0 v1.
+Definition ke_clamp : kx := KOp2 OMin (KOp2 OMax v0 v1) v2.
+Definition ke_relu : kx := KOp2 OMax v0 (kz 0).
+Definition ke_relu6 : kx := KOp2 OMin (KOp1 OCastFloat (KOp2 OMax v0 (kz 0))) (kz 6).
+Definition ke_select_n : kx := KOp3 OWhere v0 v2 v1.
+Definition ke_select_n_b : kx := KOp3 OWhereB v0 v2 v1.
+Definition ke_select_n_int : kx := KOp3 OWhere (KOp2 OEqual (KOp1 (OCast I64) v0) (kz 1)) v2 v1.
+Definition ke_where : kx := KOp3 OWhere v0 v1 v2.
+Definition ke_where_b : kx := KOp3 OWhereB v0 v1 v2.
+Definition ke_bool_and : kx := KOp2 OAnd v0 v1.
+Definition ke_bool_or : kx := KOp2 OOr v0 v1.
+Definition ke_bool_xor : kx := KOp2 OXor v0 v1.
+Definition ke_bool_not : kx := KOp1 ONot v0.
+Definition ke_bitand sb : kx := KOp2 (OBitAnd sb) v0 v1.
+Definition ke_bitor sb : kx := KOp2 (OBitOr sb) v0 v1.
+Definition ke_bitxor sb : kx := KOp2 (OBitXor sb) v0 v1.
+Definition ke_bitnot sb : kx := KOp1 (OBitNot sb) v0.
+Definition ke_shift_left (sb : ity) : kx :=
+  if is_signed sb then KOp1 (OCast sb) (KOp2 (OShl (utwin sb)) (KOp1 (OCast (utwin sb)) v0) (KOp1 (OCast (utwin sb)) v1))
+  else KOp2 (OShl sb) v0 v1.
+Definition ke_shift_right_logical (sb : ity) : kx :=
+  if is_signed sb then KOp1 (OCast sb) (KOp2 (OShr (utwin sb)) (KOp1 (OCast (utwin sb)) v0) (KOp1 (OCast (utwin sb)) v1))
+  else KOp2 (OShr sb) v0 v1.
+Definition ke_sra_mask (ub : ity) (sc : kx) : kx :=
+  KOp2 (OMul ub) (KOp2 (OShl ub) (kz (2 ^ snd ub - 1)) (KOp2 (OSub ub) (kz (snd ub)) sc))
+                 (KOp1 (OCastOfBool ub) (KOp1 ONot (KOp2 OEqual sc (kz 0)))).
+Definition ke_sra_signed (sb : ity) : kx :=
+  let ub : ity := (false, snd sb) in
+  let sc := KOp2 OMin (KOp1 (OCast ub) (KOp2 OMax v1 (kz 0))) (kz (snd sb)) in
+  let shifted := KOp2 (OShr ub) (KOp1 (OCast ub) v0) sc in
+  KOp1 (OCast sb) (KOp2 (OAdd ub) shifted
+     (KOp2 (OMul ub) (KOp2 (OSub ub) (KOp2 (OBitOr ub) shifted (ke_sra_mask ub sc)) shifted)
+                     (KOp1 (OCastOfBool ub) (KOp2 OLess v0 (kz 0))))).
+Definition ke_sra_unsigned (sb : ity) : kx :=
+  let sc := KOp2 OMin v1 (kz (snd sb)) in
+  KOp2 (OBitOr sb) (KOp2 (OShr sb) v0 sc) (KOp2 (OMul sb) (ke_sra_mask sb sc) (KOp2 (OShr sb) v0 (kz (snd sb - 1)))).
+Definition ke_shift_right_arithmetic (sb : ity) : kx := if is_signed sb then ke_sra_signed sb else ke_sra_unsigned sb.
+Definition ke_eq : kx := KOp2 OEqual v0 v1.
+Definition ke_ne : kx := KOp1 ONot (KOp2 OEqual v0 v1).
+Definition ke_lt : kx := KOp2 OLess v0 v1.
+Definition ke_le : kx := KOp2 OLessEq v0 v1.
+Definition ke_gt : kx := KOp2 OGreater v0 v1.
+Definition ke_ge : kx := KOp2 OGreaterEq v0 v1.
+Definition ke_eq_b : kx := KOp2 OEqualB v0 v1.
+Definition ke_ne_b : kx := KOp1 ONot (KOp2 OEqualB v0 v1).
+Definition ke_floor : kx := KOp1 OFloor v0.
+Definition ke_ceil : kx := KOp1 OCeil v0.
+Definition ke_round : kx := KOp1 ORound v0.
+Definition ke_round_away : kx :=
+  KOp3 OWhere (KOp2 OEqualF (KOp2 OSubF (KOp1 OAbsF v0) (KOp1 OFloor (KOp1 OAbsF v0))) (KConst (VQ (1, 2))))
+       (KOp2 OMulF (KOp1 OSignF v0) (KOp2 OAddF (KOp1 OFloor (KOp1 OAbsF v0)) (kz 1)))
+       (KOp1 ORound v0).
+Fixpoint ke_mul_chain (sb : ity) (k : nat) : kx :=
+  match k with O => v0 | S k' => KOp2 (OMul sb) (ke_mul_chain sb k') v0 end.
+Definition ke_integer_pow (sb : ity) (n : nat) : kx :=
+  match n with O => KOp2 (OPow sb) v0 (kz 0) | S O => KOp1 OIdentity v0 | S k => ke_mul_chain sb k end.
+Definition ke_convert_int (t : ity) : kx := KOp1 (OCast t) v0.
+Definition ke_convert_to_bool : kx := KOp1 OCastToBool v0.
+Definition ke_convert_of_bool (t : ity) : kx := KOp1 (OCastOfBool t) v0.
+
+(* ---- soundness of the embedding: the scalar function of each graph IS lowered_k (by computation) *)
+Lemma ke_add_sound sb x y : kev_s (ke_add sb) [VZ x; VZ y] = VZ (lowered_add sb x y). Proof. reflexivity. Qed.
+Lemma ke_sub_sound sb x y : kev_s (ke_sub sb) [VZ x; VZ y] = VZ (lowered_sub sb x y). Proof. reflexivity. Qed.
+Lemma ke_mul_sound sb x y : kev_s (ke_mul sb) [VZ x; VZ y] = VZ (lowered_mul sb x y). Proof. reflexivity. Qed.
+Lemma ke_neg_sound sb x : kev_s (ke_neg sb) [VZ x] = VZ (lowered_neg sb x).
+Proof. unfold ke_neg, lowered_neg, repaired_neg. now destruct (is_signed sb). Qed.
+Lemma ke_abs_sound sb x : kev_s (ke_abs sb) [VZ x] = VZ (lowered_abs sb x). Proof. reflexivity. Qed.
+Lemma ke_sign_sound sb x : kev_s (ke_sign sb) [VZ x] = VZ (lowered_sign sb x). Proof. reflexivity. Qed.
+Lemma ke_div_sound sb x y : kev_s (ke_div sb) [VZ x; VZ y] = VZ (lowered_div sb x y). Proof. reflexivity. Qed.
+Lemma ke_rem_sound sb x y : kev_s (ke_rem sb) [VZ x; VZ y] = VZ (lowered_rem sb x y). Proof. reflexivity. Qed.
+Lemma ke_floor_divide_sound sb x y : kev_s (ke_floor_divide sb) [VZ x; VZ y] = VZ (lowered_floor_divide sb x y).
+Proof. unfold ke_floor_divide, lowered_floor_divide. now destruct (is_signed sb). Qed.
+Lemma ke_mod_sound sb x y : kev_s (ke_mod sb) [VZ x; VZ y] = VZ (lowered_mod sb x y). Proof. reflexivity. Qed.
+Lemma ke_fmod_sound sb x y : kev_s (ke_fmod sb) [VZ x; VZ y] = VZ (lowered_fmod sb x y). Proof. reflexivity. Qed.
+Lemma ke_max_sound x y : kev_s ke_max [VZ x; VZ y] = VZ (lowered_max x y). Proof. reflexivity. Qed.
+Lemma ke_min_sound x y : kev_s ke_min [VZ x; VZ y] = VZ (lowered_min x y). Proof. reflexivity. Qed.
+Lemma ke_clamp_sound x lo hi : kev_s ke_clamp [VZ x; VZ lo; VZ hi] = VZ (lowered_clamp x lo hi). Proof. reflexivity. Qed.
+Lemma ke_clip_sound x lo hi : kev_s ke_clamp [VZ x; VZ lo; VZ hi] = VZ (lowered_clip x lo hi). Proof. reflexivity. Qed.
+Lemma ke_relu_sound x : kev_s ke_relu [VZ x] = VZ (lowered_relu x). Proof. reflexivity. Qed.
+Lemma ke_relu6_sound x : kev_s ke_relu6 [VZ x] = VZ (lowered_relu6 x). Proof. reflexivity. Qed.
+Lemma ke_select_n_sound p x y : kev_s ke_select_n [VB p; VZ x; VZ y] = VZ (lowered_select_n p x y). Proof. reflexivity. Qed.
+Lemma ke_select_n_b_sound p x y : kev_s ke_select_n_b [VB p; VB x; VB y] = VB (lowered_select_n_b p x y). Proof. reflexivity. Qed.
+Lemma ke_select_n_int_sound p x y : kev_s ke_select_n_int [VZ p; VZ x; VZ y] = VZ (lowered_select_n_int p x y). Proof. reflexivity. Qed.
+Lemma ke_where_sound p x y : kev_s ke_where [VB p; VZ x; VZ y] = VZ (lowered_where p x y). Proof. reflexivity. Qed.
+Lemma ke_where_b_sound p x y : kev_s ke_where_b [VB p; VB x; VB y] = VB (lowered_where_b p x y). Proof. reflexivity. Qed.
+Lemma ke_bool_and_sound a b : kev_s ke_bool_and [VB a; VB b] = VB (lowered_bool_and a b). Proof. reflexivity. Qed.
+Lemma ke_bool_or_sound a b : kev_s ke_bool_or [VB a; VB b] = VB (lowered_bool_or a b). Proof. reflexivity. Qed.
+Lemma ke_bool_xor_sound a b : kev_s ke_bool_xor [VB a; VB b] = VB (lowered_bool_xor a b). Proof. reflexivity. Qed.
+Lemma ke_bool_not_sound a : kev_s ke_bool_not [VB a] = VB (lowered_bool_not a). Proof. reflexivity. Qed.
+Lemma ke_bitand_sound sb x y : kev_s (ke_bitand sb) [VZ x; VZ y] = VZ (lowered_bitand sb x y). Proof. reflexivity. Qed.
+Lemma ke_bitor_sound sb x y : kev_s (ke_bitor sb) [VZ x; VZ y] = VZ (lowered_bitor sb x y). Proof. reflexivity. Qed.
+Lemma ke_bitxor_sound sb x y : kev_s (ke_bitxor sb) [VZ x; VZ y] = VZ (lowered_bitxor sb x y). Proof. reflexivity. Qed.
+Lemma ke_bitnot_sound sb x : kev_s (ke_bitnot sb) [VZ x] = VZ (lowered_bitnot sb x). Proof. reflexivity. Qed.
+Lemma ke_shift_left_sound sb x s : kev_s (ke_shift_left sb) [VZ x; VZ s] = VZ (lowered_shift_left sb x s).
+Proof. unfold ke_shift_left, lowered_shift_left, repaired_shift_left. now destruct (is_signed sb). Qed.
+Lemma ke_shift_right_logical_sound sb x s : kev_s (ke_shift_right_logical sb) [VZ x; VZ s] = VZ (lowered_shift_right_logical sb x s).
+Proof. unfold ke_shift_right_logical, lowered_shift_right_logical, repaired_shift_right_logical. now destruct (is_signed sb). Qed.
+Lemma ke_shift_right_arithmetic_sound sb x s :
+  kev_s (ke_shift_right_arithmetic sb) [VZ x; VZ s] = VZ (lowered_shift_right_arithmetic sb x s).
+Proof. unfold ke_shift_right_arithmetic, lowered_shift_right_arithmetic. now destruct (is_signed sb). Qed.
+Lemma ke_eq_sound x y : kev_s ke_eq [VZ x; VZ y] = VB (lowered_eq x y). Proof. reflexivity. Qed.
+Lemma ke_ne_sound x y : kev_s ke_ne [VZ x; VZ y] = VB (lowered_ne x y). Proof. reflexivity. Qed.
+Lemma ke_lt_sound x y : kev_s ke_lt [VZ x; VZ y] = VB (lowered_lt x y). Proof. reflexivity. Qed.
+Lemma ke_le_sound x y : kev_s ke_le [VZ x; VZ y] = VB (lowered_le x y). Proof. reflexivity. Qed.
+Lemma ke_gt_sound x y : kev_s ke_gt [VZ x; VZ y] = VB (lowered_gt x y). Proof. reflexivity. Qed.
+Lemma ke_ge_sound x y : kev_s ke_ge [VZ x; VZ y] = VB (lowered_ge x y). Proof. reflexivity. Qed.
+Lemma ke_eq_b_sound a b : kev_s ke_eq_b [VB a; VB b] = VB (lowered_eq_b a b). Proof. reflexivity. Qed.
+Lemma ke_ne_b_sound a b : kev_s ke_ne_b [VB a; VB b] = VB (lowered_ne_b a b). Proof. reflexivity. Qed.
+Lemma ke_floor_sound q : kev_s ke_floor [VQ q] = VZ (lowered_floor q). Proof. reflexivity. Qed.
+Lemma ke_ceil_sound q : kev_s ke_ceil [VQ q] = VZ (lowered_ceil q). Proof. reflexivity. Qed.
+Lemma ke_round_sound q : kev_s ke_round [VQ q] = VZ (lowered_round q). Proof. reflexivity. Qed.
+Lemma ke_round_away_sound q : kev_s ke_round_away [VQ q] = VZ (lowered_round_away q). Proof. reflexivity. Qed.
+Lemma ke_mul_chain_sound sb x k : kev_s (ke_mul_chain sb k) [VZ x] = VZ (mul_chain sb x k).
+Proof. induction k as [|k IH]; [reflexivity|]. cbn [ke_mul_chain mul_chain]. change (kev_s (KOp2 (OMul sb) (ke_mul_chain sb k) v0) [VZ x])
+  with (sem2 (OMul sb) (kev_s (ke_mul_chain sb k) [VZ x]) (VZ x)). now rewrite IH. Qed.
+Lemma ke_integer_pow_sound sb x n : kev_s (ke_integer_pow sb n) [VZ x] = VZ (lowered_integer_pow sb x n).
+Proof. destruct n as [|[|k]]; try reflexivity. apply (ke_mul_chain_sound sb x (S k)). Qed.
+Lemma ke_convert_int_sound t x : kev_s (ke_convert_int t) [VZ x] = VZ (lowered_convert_int t x). Proof. reflexivity. Qed.
+Lemma ke_convert_to_bool_sound x : kev_s ke_convert_to_bool [VZ x] = VB (lowered_convert_to_bool x). Proof. reflexivity. Qed.
+Lemma ke_convert_of_bool_sound t b : kev_s (ke_convert_of_bool t) [VB b] = VZ (lowered_convert_of_bool t b). Proof. reflexivity. Qed.
+
+(* ---- the lifting theorem specialised to typed operands: tensors of integers / booleans / fractions are injected
+   into sval tensors; the result is the injected elementwise JAX function with numpy broadcasting *)
+Lemma prj_inj k (x : sden k) : prj k (inj k x) = x.
+Proof. destruct k; reflexivity. Qed.
+Lemma bcast_at_tmap {A B} (f : A -> B) (X : tensor A) idx : bcast_at (tmap f X) idx = f (bcast_at X idx).
+Proof. reflexivity. Qed.
+
+Theorem lift1_k ka kr (e : kx) (low jax : sden ka -> sden kr) (dom : sden ka -> Prop) :
+  (forall x, kev_s e [inj ka x] = inj kr (low x)) -> kuses 0 e ->
+  (forall x, dom x -> low x = jax x) ->
+  forall X : tensor (sden ka), (forall idx, in_range (shape X) idx -> dom (at_ X idx)) ->
+  teq (kev_t e [tmap (inj ka) X]) (tmap (inj kr) (tmap jax X)).
+Proof.
+  intros Hs Hu Hc X Hd.
+  eapply teq_trans.
+  - apply (@keval_t_tmapN_ext sval oop oop oop sem1 sem2 sem3 sv0 e [tmap (inj ka) X] (shape X)
+             (fun xs => inj kr (jax (prj ka (nth 0 xs sv0))))).
+    + constructor; [apply bsub_refl | constructor].
+    + intros i Hi. simpl in Hi. destruct i as [|i]; [exact Hu | lia].
+    + intros idx Hi. cbn [map]. rewrite bcast_at_tmap. fold (kev_s e [inj ka (bcast_at X idx)]).
+      rewrite Hs. cbn [nth]. rewrite prj_inj. f_equal. apply Hc.
+      unfold bshape_all in Hi. cbn [map fold_right shape tmap] in Hi. rewrite bcast_shape_nil_r in Hi.
+      unfold bcast_at. rewrite balign_in_range by exact Hi. now apply Hd.
+  - split; [unfold tmapN, tmapF, bshape_all; simpl; now rewrite bcast_shape_nil_r|].
+    intros idx Hi. unfold tmapN, tmapF in *. cbn [at_ map nth shape tmap] in *. rewrite bcast_at_tmap, prj_inj.
+    unfold bshape_all in Hi. cbn [map fold_right shape tmap] in Hi. rewrite bcast_shape_nil_r in Hi.
+    unfold bcast_at. now rewrite balign_in_range.
+Qed.
+
+Theorem lift2_k ka kb kr (e : kx) (low jax : sden ka -> sden kb -> sden kr) (dom : sden ka -> sden kb -> Prop) :
+  (forall x y, kev_s e [inj ka x; inj kb y] = inj kr (low x y)) -> kuses 0 e -> kuses 1 e ->
+  (forall x y, dom x y -> low x y = jax x y) ->
+  forall (X : tensor (sden ka)) (Y : tensor (sden kb)), bcompat (shape X) (shape Y) ->
+  (forall idx, in_range (bcast_shape (shape X) (shape Y)) idx -> dom (bcast_at X idx) (bcast_at Y idx)) ->
+  teq (kev_t e [tmap (inj ka) X; tmap (inj kb) Y]) (tmap (inj kr) (tmap2b jax X Y)).
+Proof.
+  intros Hs Hu0 Hu1 Hc X Y Hb Hd.
+  assert (Hsh : bshape_all [shape X; shape Y] = bcast_shape (shape X) (shape Y))
+    by (unfold bshape_all; simpl; now rewrite bcast_shape_nil_r).
+  eapply teq_trans.
+  - apply (@keval_t_tmapN_ext sval oop oop oop sem1 sem2 sem3 sv0 e [tmap (inj ka) X; tmap (inj kb) Y]
+             (bcast_shape (shape X) (shape Y))
+             (fun xs => inj kr (jax (prj ka (nth 0 xs sv0)) (prj kb (nth 1 xs sv0))))).
+    + exact (bcompat_common Hb).
+    + intros i Hi. simpl in Hi. destruct i as [|[|i]]; [exact Hu0 | exact Hu1 | lia].
+    + intros idx Hi. cbn [map shape tmap] in *. rewrite Hsh in Hi. rewrite !bcast_at_tmap.
+      fold (kev_s e [inj ka (bcast_at X idx); inj kb (bcast_at Y idx)]).
+      rewrite Hs. cbn [nth]. rewrite !prj_inj. f_equal. apply Hc. now apply Hd.
+  - split; [exact Hsh|].
+    intros idx Hi. unfold tmapN, tmapF. cbn [at_ map nth tmap tmap2b]. now rewrite !bcast_at_tmap, !prj_inj.
+Qed.
+
+Theorem lift3_k ka kb kc kr (e : kx) (low jax : sden ka -> sden kb -> sden kc -> sden kr)
+  (dom : sden ka -> sden kb -> sden kc -> Prop) :
+  (forall x y z, kev_s e [inj ka x; inj kb y; inj kc z] = inj kr (low x y z)) -> kuses 0 e -> kuses 1 e -> kuses 2 e ->
+  (forall x y z, dom x y z -> low x y z = jax x y z) ->
+  forall (X : tensor (sden ka)) (Y : tensor (sden kb)) (Z : tensor (sden kc)) u,
+  bcommon [shape X; shape Y; shape Z] u ->
+  (forall idx, in_range (bcast_shape (shape X) (bcast_shape (shape Y) (shape Z))) idx ->
+     dom (bcast_at X idx) (bcast_at Y idx) (bcast_at Z idx)) ->
+  teq (kev_t e [tmap (inj ka) X; tmap (inj kb) Y; tmap (inj kc) Z]) (tmap (inj kr) (tmap3b jax X Y Z)).
+Proof.
+  intros Hs Hu0 Hu1 Hu2 Hc X Y Z u Hb Hd.
+  assert (Hsh : bshape_all [shape X; shape Y; shape Z] = bcast_shape (shape X) (bcast_shape (shape Y) (shape Z)))
+    by (unfold bshape_all; simpl; now rewrite bcast_shape_nil_r).
+  eapply teq_trans.
+  - apply (@keval_t_tmapN_ext sval oop oop oop sem1 sem2 sem3 sv0 e [tmap (inj ka) X; tmap (inj kb) Y; tmap (inj kc) Z] u
+             (fun xs => inj kr (jax (prj ka (nth 0 xs sv0)) (prj kb (nth 1 xs sv0)) (prj kc (nth 2 xs sv0))))).
+    + exact Hb.
+    + intros i Hi. simpl in Hi. destruct i as [|[|[|i]]]; [exact Hu0 | exact Hu1 | exact Hu2 | lia].
+    + intros idx Hi. cbn [map shape tmap] in *. rewrite Hsh in Hi. rewrite !bcast_at_tmap.
+      fold (kev_s e [inj ka (bcast_at X idx); inj kb (bcast_at Y idx); inj kc (bcast_at Z idx)]).
+      rewrite Hs. cbn [nth]. rewrite !prj_inj. f_equal. apply Hc. now apply Hd.
+  - split; [exact Hsh|].
+    intros idx Hi. unfold tmapN, tmapF. cbn [at_ map nth tmap tmap3b]. now rewrite !bcast_at_tmap, !prj_inj.
+Qed.
+
+(* every element of an integer tensor is a value of the element type *)
+Definition tin (sb : ity) (X : tensor Z) : Prop := forall idx, in_range (shape X) idx -> in_int sb (at_ X idx).
+Lemma tin_bcast sb X u idx : tin sb X -> bsub (shape X) u -> in_range u idx -> in_int sb (bcast_at X idx).
+Proof. intros Ht Hs Hi. apply Ht. now apply balign_in_range_sub with (u := u). Qed.
